@@ -205,6 +205,12 @@ Definition labels_valid (sr : ser) (lg : lgraph) : bool :=
 Definition lab_seq (le : bool) (sr : ser) (lg : lgraph) : lfiles :=
   lseq N (ser_enc le sr) (labs lg).
 
+(** closed form of the files (proved equal to [lab_seq], hence to the parallel result):
+    per-node label bits concatenated; γ(0) then γ of each node's bit count *)
+Definition lab_closed (le : bool) (sr : ser) (lg : lgraph) : lfiles :=
+  let nodes := map (fun nd => flat_map (ser_enc le sr) (map snd nd)) lg in
+  mkFiles (concat nodes) (flat_map gamma_be (0 :: map nlen nodes)) (nlen (concat nodes)).
+
 (** cut a list into the segments of a cut sequence (as [Splice.segments]) *)
 Fixpoint psegments {A} (cuts : list N) (l : list A) : list (list A) :=
   match cuts with
